@@ -22,6 +22,22 @@ def orth_images(m):
     return abs(dot) <= 1e-9 * (math.hypot(m[0], m[1]) * math.hypot(m[2], m[3]) + 1e-300)
 
 
+def closed_outline(sampled, kinds):
+    """the round-shape finding in its own terms: the segments still chain into one outline that the arcs close by themselves
+    (start of each = end of its predecessor, back at the first point, closepath of no length); otherwise it is something else"""
+    if not sampled:
+        return False
+    tolc = 1e-7 * max([1.0] + [abs(v) for sg in sampled for p in sg for v in p])
+    prev = None
+    for i, sg in enumerate(sampled):
+        if prev is not None and geo.pdist(sg[0], prev) > tolc:
+            return False
+        prev = sg[1]
+        if kinds and i < len(kinds) and kinds[i] == "Close" and geo.pdist(sg[0], sg[1]) > tolc:
+            return False
+    return geo.pdist(prev, sampled[0][0]) <= tolc
+
+
 def rand_shape(rng):
     k = rng.choice(["rect", "rrect", "circle", "ellipse", "line", "polyline", "polygon"])
     c = lambda: round(rng.uniform(-200, 200), 2)
@@ -293,7 +309,7 @@ class C02(Prop):
                     if name == "p2" and case["shape"]["k"] in ("circle", "ellipse"):
                         tot = gen.mat_mul(case["pre"], M) if case["pre"] is not None else M
                         det = tot[0] * tot[3] - tot[2] * tot[1]
-                        if (not orth_images(tot)) or det < 0:
+                        if ((not orth_images(tot)) or det < 0) and closed_outline(got, obs.get("kinds2")):
                             f["finding"] = FINDING_ROUND
                     fs.append(f)
         return fs
